@@ -151,3 +151,11 @@ pub fn credential_subject_encode(
 ) -> Result<crate::data_types::credential::CredentialValues> {
     subject.encode()
 }
+
+pub fn is_self_attested(
+    referent: &str,
+    info: &crate::data_types::pres_request::AttributeInfo,
+    self_attested_attrs: &HashSet<String>,
+) -> bool {
+    crate::services::verifier::verif_hooks::is_self_attested(referent, info, self_attested_attrs)
+}
